@@ -12,15 +12,17 @@ import (
 //	for n < limit && err == nil { m, err = r.Read(buf[n:]); n += m }
 //
 // A direct Read is independent of how the stream is chunked when
-//  (1) it sits in a loop whose only exits are "n ≥ limit" (limit invariant in the loop) and
-//      "err != nil", n and err being header phis of that loop;
-//  (2) the buffer handed to Read is buf[n:] (buf defined before the loop), the count result is
-//      added to n on every back edge, and the error result is the loop-carried err;
-//  (3) nothing else happens in the loop (no other call, no store);
-//  (4) after the loop the error is only looked at when n < limit: a reader may deliver its last
-//      bytes together with io.EOF or report io.EOF on the next call, so whether err is nil when the
-//      buffer is full depends on the delivery; every use of err outside the loop is dominated by
-//      the n < limit edge.
+//
+//	(1) it sits in a loop whose only exits are "n ≥ limit" (limit invariant in the loop) and
+//	    "err != nil", n and err being header phis of that loop;
+//	(2) the buffer handed to Read is buf[n:] (buf defined before the loop), the count result is
+//	    added to n on every back edge, and the error result is the loop-carried err;
+//	(3) nothing else happens in the loop (no other call, no store);
+//	(4) after the loop the error is only looked at when n < limit: a reader may deliver its last
+//	    bytes together with io.EOF or report io.EOF on the next call, so whether err is nil when the
+//	    buffer is full depends on the delivery; every use of err outside the loop is dominated by
+//	    the n < limit edge.
+//
 // Then n at the exit is min(limit, bytes available before the first error) and, when n < limit, err
 // is that first error: both functions of the byte sequence only (given the io.Reader contract).
 type fillLoop struct {
